@@ -733,3 +733,36 @@ def str_join(sep, parts):
     if any(isinstance(p, SymStr) for p in parts) or isinstance(sep, SymStr):
         return SymStr.of(sep).join(parts)
     return sep.join(parts)
+
+
+class LazyBinStr:
+    """f"{x:b}" for a symbolic non-negative x: a digit string whose *length* is symbolic (x.bit_length()).  Only what BIP39-style
+    code does with it is modelled: len(), zfill(n) for n at least the greatest possible length (a SymStr of n digits) and a
+    prefix slice [:n] under the same condition on the length; anything else is unsupported (inconclusive)."""
+
+    def __init__(self, x):
+        self.x = x
+
+    @property
+    def __class__(self):
+        return str
+
+    def sym_len(self):
+        bl = self.x.bit_length()
+        return ite(self.x == 0, 1, bl)
+
+    def zfill(self, n):
+        n = concretize(n)
+        x = lift(self.x)
+        if x.lo < 0 or x.hi >= (1 << n):
+            return _unsupported("zfill narrower than the binary rendering may be")
+        return SymStr.mk([48 + ((x >> (n - 1 - i)) & 1) for i in range(n)])
+
+    def __getitem__(self, i):
+        return _unsupported("indexing an unpadded binary rendering")
+
+    def __str__(self):
+        return "<symbin>"
+
+    def __format__(self, spec):
+        return "<symbin>"
